@@ -190,8 +190,8 @@ func toCval(t protomodel.FieldType, v any, m mode) (cval, bool) {
 		if !ok {
 			return cval{}, false
 		}
-		if flagsProbed != nil && flagsProbed.strict && !(f == math.Trunc(f) && f >= -9223372036854775808.0 && f < 9223372036854775808.0) {
-			return cval{}, false // the engine accepts only integral numbers in the int64 range
+		if !m.truncInt && !(f == math.Trunc(f) && f >= -9223372036854775808.0 && f < 9223372036854775808.0) {
+			return cval{}, false // only numbers with an exact int64 representation are values of an INTEGER field
 		}
 		if m.truncInt {
 			return cval{kind: 1, i: int64(f), isI: true}, true
